@@ -44,7 +44,7 @@ type c27Elem struct {
 }
 
 type c27Op struct {
-	K       string // A IA D U RA SV MF SH SP CD PU PS PO O AL UA F CF RF
+	K       string // A IA PA N D U RA SV MF SH SP CD PU PS PO O AL UA F CF RF
 	Name    string
 	HasIdx  bool
 	Idx     int
@@ -65,6 +65,8 @@ type c27Op struct {
 	Words   string
 	Blank   bool
 	Body    string // F: source of the body statements; the token carries the printed body
+	Colon   bool   // PA: ${name[idx]:=val} rather than ${name[idx]=val}
+	Arith   int    // SV: 0 `read`, 1 `((name=val))`, 2 `: $((name=val))`, 3 `let name=val`, 4 `: $((name+=0*name+val))`-free form; N: which failing command
 }
 
 func c27HexList(v []string) string {
@@ -134,6 +136,14 @@ func (o *c27Op) Tok() string {
 		return "A:" + hx(o.Name) + ":" + idx + ":" + b01(o.App) + ":" + o.rhsTok()
 	case "IA":
 		return "IA:" + hx(o.Name) + ":" + b01(o.App) + ":" + o.rhsTok()
+	case "PA":
+		idx := "_"
+		if o.HasIdx {
+			idx = "i" + strconv.Itoa(o.Idx)
+		}
+		return "PA:" + hx(o.Name) + ":" + idx + ":" + b01(o.Colon) + ":" + hx(o.S)
+	case "N":
+		return "N"
 	case "D":
 		fl := o.Flags
 		if fl == "" {
@@ -228,6 +238,19 @@ func (o *c27Op) Src(root string) string {
 		return n + eq + o.rhsSrc()
 	case "IA":
 		return o.Name + eq + o.rhsSrc() + " true"
+	case "PA":
+		n := o.Name
+		if o.HasIdx {
+			n += "[" + strconv.Itoa(o.Idx) + "]"
+		}
+		op := "="
+		if o.Colon {
+			op = ":="
+		}
+		return ": \"${" + n + op + c27Word(o.S) + "}\""
+	case "N":
+		// assignment targets the arithmetic evaluator refuses: an error, no write
+		return []string{"((a[1]=2))", "((a[1]++))", ": $((b[0]+=1))", "let 'c[2]=3'"}[o.Arith%4]
 	case "D":
 		cmd := map[string]string{"d": "declare", "l": "local", "x": "export", "r": "readonly"}[o.Variant]
 		for _, f := range o.Flags {
@@ -255,6 +278,14 @@ func (o *c27Op) Src(root string) string {
 	case "RA":
 		return "read -a " + o.Name + " <<< \"" + strings.Join(o.Vals, " ") + "\""
 	case "SV":
+		switch o.Arith {
+		case 1:
+			return "((" + o.Name + "=" + o.S + "))"
+		case 2:
+			return ": $((" + o.Name + "=" + o.S + "))"
+		case 3:
+			return "let " + o.Name + "=" + o.S
+		}
 		return "read " + o.Name + " <<< \"" + o.S + "\""
 	case "MF":
 		if len(o.Vals) == 0 {
@@ -366,6 +397,16 @@ func c27ParseTok(tok string) (o c27Op, ok bool) {
 		}
 		o.App = f[3] == "1"
 		return o, c27ParseRhs(f[4], &o)
+	case o.K == "PA" && len(f) == 5:
+		o.Name = unhx(f[1])
+		if f[2] != "_" {
+			o.HasIdx = true
+			o.Idx, _ = strconv.Atoi(f[2][1:])
+		}
+		o.Colon, o.S = f[3] == "1", unhx(f[4])
+		return o, true
+	case o.K == "N" && len(f) == 1:
+		return o, true
 	case o.K == "IA" && len(f) == 4:
 		o.Name, o.App = unhx(f[1]), f[2] == "1"
 		return o, c27ParseRhs(f[3], &o) && o.RhsKind < 2
@@ -876,6 +917,9 @@ func (g *c27Gen) arrRhs(o *c27Op) {
 	next := 0
 	for i := 0; i < n; i++ {
 		e := c27Elem{V: g.val()}
+		if g.r.Chance(15) {
+			e.V = "" // set-but-null elements: the targets of ${a[i]:=w}
+		}
 		if g.r.Chance(25) {
 			e.HasIdx = true
 			e.I = next + g.r.Intn(4)
@@ -922,8 +966,17 @@ func (g *c27Gen) op(kinds c27Kinds, inFunc bool) c27Op {
 			if r.Chance(25) { // inline before a command: exported for it, restored afterwards
 				o.K = "IA"
 			}
-		case k < 34: // element assignment / append
+		case k < 30: // element assignment / append
 			o = c27Op{K: "A", Name: name, HasIdx: true, Idx: g.idx(), App: r.Chance(15), RhsKind: 1, S: g.val()}
+		case k < 34: // assigning expansions ${x=w} ${x:=w} ${a[i]=w} ${a[i]:=w}: unset / null / set elements
+			o = c27Op{K: "PA", Name: name, Colon: r.Chance(65), S: g.neval()}
+			if r.Chance(75) {
+				o.HasIdx = true
+				o.Idx = []int{0, 1, 2, 3, 1, 2, 5, -1, -2, -7}[r.Intn(10)]
+			}
+			if r.Chance(50) {
+				o.Name = r.Pick(c27ArrNames)
+			}
 		case k < 39: // associative
 			o = c27Op{K: "A", Name: "m", App: false}
 			g.mapRhs(&o)
@@ -980,6 +1033,12 @@ func (g *c27Gen) op(kinds c27Kinds, inFunc bool) c27Op {
 			o = c27Op{K: "RA", Name: r.Pick(c27ArrNames), Vals: g.vals(4)}
 		case k < 69:
 			o = c27Op{K: "SV", Name: name, S: g.neval()}
+			if r.Chance(60) { // arithmetic assignments store a decimal string through the same setVar
+				o.Arith = 1 + r.Intn(3)
+				o.S = r.Pick([]string{"0", "1", "7", "22", "305"})
+			} else if r.Chance(15) {
+				o = c27Op{K: "N", Arith: r.Intn(4)}
+			}
 		case k < 74:
 			o = c27Op{K: "MF", Name: r.Pick(c27ArrNames), Vals: g.vals(4)}
 		case k < 77:
@@ -1011,6 +1070,12 @@ func (g *c27Gen) op(kinds c27Kinds, inFunc bool) c27Op {
 func (g *c27Gen) track(o *c27Op, kinds c27Kinds) {
 	set := func(k byte) { kinds[o.Name] = k }
 	switch o.K {
+	case "PA":
+		if o.HasIdx && kinds[o.Name] != 'm' {
+			kinds[o.Name] = 'a'
+		} else if kinds[o.Name] == 0 {
+			kinds[o.Name] = 's'
+		}
 	case "IA": // restored afterwards: nothing changes
 	case "A", "D":
 		if o.K == "D" && o.Naked {
